@@ -29,6 +29,7 @@ Next == /\ n < MaxOps /\ n' = n + 1
 Spec == Init /\ [][Next]_svars
 
 CacheTransparent == CacheTransparentFor(Seed)
+RootsAreDistinct == RootsDiffer(Seed)
 \* a memo entry points to an object that is the derivation it is filed under (only meaningful for KeyMode = "full")
 MemoSound == \A o \in 1..Len(objs) : \A e \in objs[o].cache :
    /\ e[2] \in 1..Len(objs)
